@@ -462,7 +462,7 @@ func propC19ExtRule(t veriflib.TB, p verifgen.DocURL) {
 	const facet = "C19/ext-rule"
 	got := hasFileExtension(p.Text)
 	if got != p.Ext {
-		if veriflib.FindingOpen(c19KeyExtRoot) && p.Shape == "root" {
+		if veriflib.FindingOpen(c19KeyExtRoot) && p.NoPath() {
 			veriflib.Excluded(facet, "open finding "+c19KeyExtRoot)
 			return
 		}
